@@ -27,6 +27,17 @@ def run(c):
                      "is rejected at the restart event or at the next proposal it handles (crashes INSIDE a handler: C05)"]
     g = c.gotest("node", "TestGenesisNetwork", timeout=1200, tag="fresh genesis networks")
     c.absorb(g)
+    # the node's only clock: MC_Ticker states the replacement rule every model and driver of this family uses for the
+    # node's timer; every sequence of schedule / fire actions is replayed on the REAL consensus.NewTimeoutTicker()
+    cfg = ("SPECIFICATION Spec\nCONSTANTS\n  Hs = {1, 2}\n  Rs = {1, 2}\n  Steps = {1, 3, 5}\n  Depth = %d\nACTION_CONSTRAINT Dump\n"
+           % (4 if th else 3))
+    dump = os.path.join(c.scratch, "ticker.dump")
+    r = c.tlc("node", "tk.cfg", module="MC_Ticker", files={"tk.cfg": cfg}, dump_to=dump, timeout=900, tag="MC_Ticker")
+    if not r.ok:
+        raise Infra("TLC failed on MC_Ticker: %s\n%s" % (r.error, c.tlc_tail(r)))
+    g = c.gotest("node", "TestTickerReplay", env=dict(TICKER_DUMP=dump), timeout=2400, tag="real ticker replay")
+    c.absorb(g)
+    os.remove(dump)
     # the handlers conform to KardiaNode in the states where progress is decided (stale locks, precommit-wait
     # re-arming, round skips, POL waits): exhaustive transitions from the scripted start states, replayed on a real
     # node (same binding as C03, reduced scale) — a stale lock or a timeout that is never re-armed shows here as a
